@@ -151,6 +151,11 @@ class Ctl:
             t.rx(reply, 0.08)
 
 
+import contextvars
+
+_CUR_XFER: contextvars.ContextVar = contextvars.ContextVar("verif_c18_xfer", default=None)
+
+
 class Xfer:
     def __init__(self, tid: int, z: int, op: str, force: bool) -> None:
         self.tid, self.z, self.op, self.force = tid, z, op, force
@@ -286,6 +291,7 @@ class Run:
 
     async def run_xfer(self, x: Xfer) -> None:
         self.by_task[asyncio.current_task()] = x  # type: ignore[index]
+        _CUR_XFER.set(x)  # inherited by every task the transfer spawns (a send moved into a task of its own)
         zone = self.zone[x.z]
         m6 = self.tcs._msg_0006
         if m6 is not None and self.fresh and (VDT.now() - m6.dtm).total_seconds() >= 180:
@@ -300,7 +306,9 @@ class Run:
             self.log("end", z=x.z, a=x.tid, b=self.book.ver_of_sched(x.z, res), s="ok")
         except asyncio.CancelledError:
             x.done = True
-            self.log("end", z=x.z, a=x.tid, b=-1, s="hang" if getattr(x, "hung", False) else "cancel")
+            own = any(t == x.tid and k in ("cancel", "timeout") for (t, _n), k in self.faults.items()) or getattr(x, "hung", False)
+            self.log("end", z=x.z, a=x.tid, b=-1, s="hang" if getattr(x, "hung", False) else "cancel",
+                     q="own" if own else "")
         except TimeoutError as err:
             x.done = True
             msg = str(err)
@@ -314,7 +322,7 @@ class Run:
         self._fallback_fire((x.tid, -1))
 
     async def send_wrap(self, cmd, /, **kw):  # wraps gwy.async_send_cmd
-        x = self.by_task.get(asyncio.current_task())  # type: ignore[arg-type]
+        x = self.by_task.get(asyncio.current_task()) or _CUR_XFER.get()  # type: ignore[arg-type]
         if x is None:
             return await self.orig_send(cmd, **kw)
         await self.fire((x.tid, x.n))
@@ -377,7 +385,7 @@ class Run:
         return handle
 
     async def lock_wrap(self, idx: str) -> None:  # wraps tcs._obtain_lock
-        x = self.by_task.get(asyncio.current_task())  # type: ignore[arg-type]
+        x = self.by_task.get(asyncio.current_task()) or _CUR_XFER.get()  # type: ignore[arg-type]
         if x is None:
             return await self.orig_lock(idx)
         it0 = self.loop.iterations
